@@ -60,10 +60,8 @@ Definition check_brackets (netloc : str) : result unit :=
     end
   else Ok tt.
 
-(** split_url: (scheme, netloc, path, query, fragment) *)
-Definition split_url (url0 : str) : result (str * str * str * str * str) :=
-  let url := clean_url url0 in
-  let '(scheme, url) := split_scheme url in
+(** the part of split_url after the scheme scan *)
+Definition split_after_scheme (scheme url : str) : result (str * str * str * str * str) :=
   bind
      (match url with
       | 47 :: 47 :: rest =>
@@ -77,6 +75,10 @@ Definition split_url (url0 : str) : result (str * str * str * str * str) :=
   let '(url, _, query) := partition 63 url in
   (if negb (str_eqb netloc []) && negb (isascii netloc) then check_netloc netloc else Ok tt);;
   Ok (scheme, netloc, url, query, fragment)).
+
+(** split_url: (scheme, netloc, path, query, fragment) *)
+Definition split_url (url0 : str) : result (str * str * str * str * str) :=
+  let '(scheme, url) := split_scheme (clean_url url0) in split_after_scheme scheme url.
 
 End Parse.
 
